@@ -1,27 +1,34 @@
-(* WorkForeignPut.v -- why the put critical section of MT/WorkMT.v carries an API-contract guard once FOREIGN submitters
-   exist: the counterexample to "all complete" (C12_all_complete / C13_drain) that the guard excludes.
+(* WorkForeignPut.v -- the record of defect D10 (iv_work_pool_put lost work queued by a FOREIGN submitter) and of its repair.
 
-   iv_work.c, max_threads = 1.  Pool thread 1 runs item 0, posts pool->ev and goes idle; the owner pops pool->ev and is
-   inside iv_work_event (work_done stolen, completions still to run) for longer than the 10 s idle timeout: thread 1
-   dies (started_threads = 0).  Helper thread 2 (a foreign submitter: neither the owner nor a pool thread) submits item 1
-   by iv_work_pool_submit_continuation: no idle thread, started_threads < max_threads, not the owner => only
-   iv_event_post(&pool->thread_needed); the call returns and the helper exits.  The owner runs the completion of item 0,
-   which calls iv_work_pool_put: started_threads == 0 => shutting_down = 1, iv_event_post(&pool->ev), return.  Back in
-   iv_work_event: `if (pool->shutting_down)`, `!pool->started_threads && iv_list_empty(&pool->work_done)` => the pool is
-   freed, pool->ev and pool->thread_needed are unregistered -- with item 1 still on pool->work_items.  Both threads are
-   joined, iv_main returns, the run ends with D: item 1 was submitted, its work function never ran, it never completed.
-   The put is neither before nor concurrent with the submission call.
+   THE DEFECT (iv_work.c before /repo commit eb5cf18 "fix: iv_work_pool_put starts a thread for work queued while the pool
+   had none"; reproduced on the real library by docs/D10_demo.c).  max_threads = 1.  Pool thread 1 runs item 0, posts
+   pool->ev and goes idle; the owner pops pool->ev and is inside iv_work_event (work_done stolen, completions still to
+   run) for longer than the 10 s idle timeout: thread 1 dies (started_threads = 0).  Helper thread 2 (a foreign
+   submitter: neither the owner nor a pool thread) submits item 1 by iv_work_pool_submit_continuation: no idle thread,
+   started_threads < max_threads, not the owner => only iv_event_post(&pool->thread_needed); the call returns and the
+   helper exits.  The owner runs the completion of item 0, which calls iv_work_pool_put: started_threads == 0 =>
+   shutting_down = 1, iv_event_post(&pool->ev), return.  Back in iv_work_event: `if (pool->shutting_down)`,
+   `!pool->started_threads && iv_list_empty(&pool->work_done)` => the pool is freed, pool->ev and pool->thread_needed
+   are unregistered -- with item 1 still on pool->work_items.  Both threads are joined, iv_main returns, the run ends
+   with D: item 1 was submitted, its work function never ran, it never completed.  The put is neither before nor
+   concurrent with the submission call.
 
-   In the model the put critical section (st_lock, branch APut SBefore) refuses this put: API contract "no
-   iv_work_pool_put while work is queued and the pool has no thread".  Below: the guard is the only thing that refuses
-   it -- with the critical section as the C code executes it (put_cs_c: the same branch without the guard) every other
-   label of the run is accepted by `step` and the run ends (LDone accepted) with item 1 queued for ever. *)
+   `put_cs_c` below is the put critical section AS THE C CODE EXECUTED IT BEFORE FIX D10 (started_threads = 0 => no
+   effects, pool->ev posted after the unlock, whatever is queued).  foreign_put_refuted: with that critical section
+   every other label of the run is accepted by `step` and the run ends (LDone accepted) with item 1 queued for ever --
+   the counterexample to "all complete" (C12_all_complete / C13_drain) for the old code.
+
+   THE REPAIR.  iv_work_pool_put now starts a thread under the lock when started_threads = 0 and work is queued (and
+   does not post pool->ev); the model follows it (st_lock, branch APut SBefore of MT/WorkMT.v; no contract guard on the
+   put any more).  foreign_put_fixed: the same prefix continued through the real `step`: the put starts thread 3, which
+   runs item 1; completion in the owner; the pool is freed only then; all three threads joined; LDone -- every item
+   completed. *)
 From Coq Require Import List ZArith Bool Arith.
 From Ivv Require Import MT.WorkMT MT.WorkMTSpec.
 Import ListNotations.
 Local Open Scope Z_scope.
 
-(* iv_work_pool_put's critical section as in iv_work.c: the APut SBefore branch of st_lock without the contract guard *)
+(* iv_work_pool_put's critical section as in iv_work.c BEFORE fix D10 (eb5cf18) *)
 Definition put_cs_c (s : state) (t : nat) : option state :=
   match pl s, lock s, act s t with
   | PLive p, None, APut SBefore =>
@@ -61,8 +68,7 @@ Lemma foreign_put_refuted :
     run (init 0) fp_pre = Some s0 /\                       (* accepted up to the put call *)
     pitems_of s0 = [1%nat] /\ match pl s0 with PLive p => pstarted p = 0 /\ pshut p = false | _ => False end /\
     In EvNeeded (opend s0) /\                              (* thread_needed posted, not yet served *)
-    step s0 (LLock 0) = None /\                            (* the contract guard refuses this put *)
-    put_cs_c s0 0 = Some s1 /\                             (* ... the C code does not *)
+    put_cs_c s0 0 = Some s1 /\                             (* the put critical section of the old code *)
     run s1 fp_post = Some s2 /\                            (* everything after it is accepted, LDone included *)
     fin s2 = true /\ pl s2 = PFreed /\ items s2 1%nat = IQ /\
     count (is_sub 1%nat) (fp_pre ++ LLock 0 :: fp_post) = 1%nat /\
@@ -73,3 +79,35 @@ Proof.
   repeat match goal with |- _ /\ _ => split end; vm_compute; try reflexivity; auto.
 Qed.
 Print Assumptions foreign_put_refuted.
+
+(* after the fix: the put (LLock 0) starts thread 3 under the lock *)
+Definition fp_fix : list label :=
+  [LLock 0; LTCreate 0 3; LUnlock 0; LEnd 0;
+   (* iv_work_event: if (pool->shutting_down): started_threads = 1, not freed *)
+   LLock 0; LUnlock 0;
+   (* the dead thread 1 is joined; thread_needed: max_threads reached, nothing to do; the helper is joined *)
+   LEvO 0; LTJoin 0 1; LEvO 0; LEvO 0; LLock 0; LUnlock 0; LEvO 0; LTJoin 0 2; LEvO 0; LBlock 0;
+   (* thread 3 runs item 1, finds the queue empty and the pool shut down: it dies and posts pool->ev *)
+   LHookStart 3; LEvW 3 3; LEvW 3 3; LLock 3; LUnlock 3; LWork 3 1; LRet 3 1;
+   LLock 3; LEvO 3; LKickO 3; LEvW 3 3; LHookStop 3; LEvO 3; LUnlock 3; LEvO 3; LTFin 3;
+   (* completion of item 1, the pool is freed, thread 3 joined, iv_main returns *)
+   LWake 0; LEvO 0; LLock 0; LUnlock 0; LCompl 0 1; LLock 0; LUnlock 0; LEvO 0; LEvO 0;
+   LEvO 0; LTJoin 0 3; LEvO 0; LMainEnd 0; LDone].
+
+Lemma foreign_put_fixed :
+  exists s0 s3,
+    run (init 0) fp_pre = Some s0 /\
+    pitems_of s0 = [1%nat] /\ match pl s0 with PLive p => pstarted p = 0 /\ pshut p = false | _ => False end /\
+    run (init 0) (fp_pre ++ fp_fix) = Some s3 /\           (* accepted by the real step, put and LDone included *)
+    accepts 0 (fp_pre ++ fp_fix) = true /\
+    In (LTCreate 0 3) fp_fix /\
+    fin s3 = true /\ pl s3 = PFreed /\ items s3 0%nat = IIdle /\ items s3 1%nat = IIdle /\
+    count (is_sub 1%nat) (fp_pre ++ fp_fix) = 1%nat /\
+    count (is_wk 1%nat) (fp_pre ++ fp_fix) = 1%nat /\
+    count (is_cp 1%nat) (fp_pre ++ fp_fix) = 1%nat /\
+    count (is_cp 0%nat) (fp_pre ++ fp_fix) = 1%nat.
+Proof.
+  exists (st_of fp_pre), (st_of (fp_pre ++ fp_fix)).
+  repeat match goal with |- _ /\ _ => split end; vm_compute; try reflexivity; auto 10.
+Qed.
+Print Assumptions foreign_put_fixed.
